@@ -100,7 +100,7 @@ Fixpoint read_all (f : list byte) (rs : list (N * N)) : option (list (list byte)
 Inductive open_err :=
 | OShortHeader      (* "reading magic header of parquet file" (file.go:75) *)
 | OBadHeaderMagic   (* "invalid magic header" (86) *)
-| ONeedDecryption   (* "encrypted footer ... no DecryptionConfig" (83) *)
+| ONeedDecryption   (* "encrypted footer ... no DecryptionConfig" (83, and 134 on the trailing magic) *)
 | OShortTail        (* "reading magic footer of parquet file" (109) *)
 | OBadTailMagic     (* "invalid magic footer" (115) *)
 | OFooterRange      (* "reading footer of parquet file" (129) *)
@@ -124,6 +124,9 @@ Section Open.
     else
       let fs := le32 (firstn 4 tail) in
       if L <? fs + 8 then OpenErr OFooterRange
+      (* an encrypted footer (trailing magic "PARE") needs keys: checked again here
+         since 383cf87, the header check does not see a file whose two magics differ *)
+      else if beqb (skipn 4 tail) magic_pare && negb has_key then OpenErr ONeedDecryption
       else match decode_at (L - 8 - fs) fs with
            | None => OpenErr OFooterDecode
            | Some m => OpenOk m
@@ -190,7 +193,9 @@ Definition open_verdict (has_key : bool) (L : N) (hdr tail : list byte) (decodes
     8 bytes of that buffer, and a footer that lies inside the buffer is not
     requested again (so it cannot be out of range).  SkipPageIndex,
     SkipBloomFilters, PrefetchBloomFilters and the read mode act after the
-    footer was decoded and do not appear.  [open_core_cfg false false] is
+    footer was decoded and do not appear.  The check for keys on the trailing
+    magic (file.go:134, commit 383cf87) is the only one left under
+    SkipMagicBytes.  [open_core_cfg false false] is
     [open_core] (ReaderProofs.open_core_cfg_tail_stages). *)
 Definition tail_read_size (optimistic : bool) (rbs L : N) : N :=
   let n := N.min rbs L in
@@ -211,6 +216,7 @@ Section OpenCfg.
       else
         let fs := le32 (firstn 4 tail) in
         if negb (fs <=? ts - 8) && (L <? fs + 8) then OpenErr OFooterRange
+        else if beqb (skipn 4 tail) magic_pare && negb has_key then OpenErr ONeedDecryption
         else match decode_at (L - 8 - fs) fs with
              | None => OpenErr OFooterDecode
              | Some m => OpenOk m
